@@ -69,7 +69,10 @@ func fieldAccesses(fn *ssa.Function, table map[string]guardSpec) []fieldAccess {
 						}
 					default:
 						// address escapes (passed to a call, e.g. &x.mu.Lock receivers are other fields) -> treat as read
-						if _, isCall := ref.(ssa.CallInstruction); isCall {
+						if cref, isCall := ref.(ssa.CallInstruction); isCall {
+							if handedWithItsLock(cref, x, table[k].Lock) {
+								continue
+							}
 							out = append(out, fieldAccess{ref, k, false, x.X})
 						}
 					}
@@ -83,6 +86,66 @@ func fieldAccesses(fn *ssa.Function, table map[string]guardSpec) []fieldAccess {
 		}
 	}
 	return out
+}
+
+// handedWithItsLock: the address of the guarded field is handed to a repository helper together with the address of
+// its guard mutex (rLockIndex(ctx, &c.indexMutex, &c.index)), and every access the helper makes through that
+// parameter happens while it holds the mutex parameter (must-lockset inside the helper). The call itself is then no
+// access; what the caller does with the field afterwards is judged where it happens.
+func handedWithItsLock(c ssa.CallInstruction, fieldAddr *ssa.FieldAddr, lockClass string) bool {
+	g := c.Common().StaticCallee()
+	if g == nil || g.Blocks == nil {
+		return false
+	}
+	args := c.Common().Args
+	pi, li := -1, -1
+	for i, a := range args {
+		if a == ssa.Value(fieldAddr) {
+			pi = i
+		}
+		if fa, ok := a.(*ssa.FieldAddr); ok && core.FieldKey(fa) == lockClass && fa.X == fieldAddr.X {
+			li = i
+		}
+	}
+	if pi < 0 || li < 0 || pi >= len(g.Params) || li >= len(g.Params) {
+		return false
+	}
+	p := g.Params[pi]
+	if p.Referrers() == nil {
+		return false
+	}
+	fl := core.AnalyzeLocks(g)
+	want := fmt.Sprintf("$param:%d", li)
+	for _, ref := range *p.Referrers() {
+		var acc ssa.Instruction
+		switch x := ref.(type) {
+		case *ssa.UnOp:
+			if x.Op == token.MUL {
+				acc = x
+			}
+		case *ssa.Store:
+			if x.Addr == ssa.Value(p) {
+				acc = x
+			}
+		case *ssa.DebugRef:
+			continue
+		default:
+			return false // handed on: not followed
+		}
+		if acc == nil {
+			continue
+		}
+		held := false
+		for _, h := range fl.HeldBefore(acc) {
+			if h.Class == want {
+				held = true
+			}
+		}
+		if !held {
+			return false
+		}
+	}
+	return true
 }
 
 // guardedBy applies a guarded-by table to the functions selected by scope.
